@@ -14,19 +14,22 @@ import (
 )
 
 const (
-	pkgWitness = "github.com/transparency-dev/witness/internal/witness"
-	pkgLitmus  = "github.com/transparency-dev/witness/internal/verifrt/litmus"
+	pkgBastion     = "github.com/transparency-dev/witness/internal/feeder/bastion"
+	pkgFeedbastion = "github.com/transparency-dev/witness/cmd/feedbastion"
+	pkgWitness     = "github.com/transparency-dev/witness/internal/witness"
+	pkgLitmus      = "github.com/transparency-dev/witness/internal/verifrt/litmus"
 )
 
 // runSpec is one harness run belonging to a check.
 type runSpec struct {
-	Harness  string
-	Domain   sym.Domain
-	Solver   sym.SolverKind
-	Quick    map[string]int
-	Thorough map[string]int
-	Covers   []string // cover points that must be reachable (vacuity guard)
-	Unwind   int
+	Harness     string
+	Domain      sym.Domain
+	Solver      sym.SolverKind
+	Quick       map[string]int
+	Thorough    map[string]int
+	Covers      []string // cover points that must be reachable (vacuity guard)
+	Unwind      int
+	CutOnUnwind bool
 	// OnlyThorough runs are skipped in the quick tier.
 	OnlyThorough bool
 	// ExpectPanicFree: a panic path is a violation of the property (always true; kept for clarity)
@@ -100,6 +103,13 @@ func init() {
 		updRun(updQ, updT),
 		{Harness: pkgWitness + ".VerifHonestStep", Quick: p("n", 8, "signers", 2, "vc_inline", 1), Thorough: p("n", 32, "signers", 2, "vc_inline", 1), Covers: []string{"honest/growth-accepted", "honest/first-use-accepted", "honest/refresh-accepted"}},
 		{Harness: pkgWitness + ".VerifVCComplete", Quick: p("n", 8, "vc_inline", 1), Thorough: p("n", 32, "vc_inline", 1), Covers: []string{"vc/nontrivial-proof"}},
+	}})
+	strAssume := []string{"String domain: []byte/string are SMT-LIB strings (one code point per byte); base64 is an uninterpreted codec with dec(enc(x))=x, enc(x) free of CR/LF, enc(x)=\"\" iff x=\"\"", "bufio.Reader.ReadLine contract (4096-byte buffer; bodies bounded to 4000 bytes so the isPrefix case is outside the claim)", "strings.Split / proof line loops bounded by k"}
+	reg(&checkSpec{ID: "C11", Assumptions: strAssume, Runs: []runSpec{
+		{Harness: pkgBastion + ".VerifParseBodyRoundTrip", Domain: sym.DomString, Solver: sym.CVC5, Quick: p("k", 8), Thorough: p("k", 64), Unwind: 200, Covers: []string{"parse/roundtrip-with-proof"}},
+		{Harness: pkgBastion + ".VerifParseBodyRefusal", Domain: sym.DomString, Solver: sym.CVC5, Quick: p("k", 2), Thorough: p("k", 4), Unwind: 4, CutOnUnwind: true, Covers: []string{"parse/accepts-one-proof-line", "parse/refuses"}},
+		{Harness: pkgWitness + ".VerifProofRoundTrip", Domain: sym.DomString, Solver: sym.CVC5, Quick: p("k", 8, "maxsplit", 10), Thorough: p("k", 64, "maxsplit", 66), Unwind: 200, Covers: []string{"proof/roundtrip-two"}},
+		{Harness: pkgFeedbastion + ".VerifWriterRoundTrip", Domain: sym.DomString, Solver: sym.CVC5, Quick: p("k", 8), Thorough: p("k", 64), Unwind: 200, Covers: []string{"writer/roundtrip-two"}},
 	}})
 	reg(&checkSpec{ID: "vc", Runs: vcRuns(), Assumptions: commonAssumptions})
 	reg(&checkSpec{ID: "litmus", Runs: []runSpec{
@@ -207,7 +217,7 @@ func cmdCheck(args []string) int {
 		if tier == "thorough" && r.Thorough != nil {
 			params = r.Thorough
 		}
-		cfg := &sym.RunConfig{Harness: r.Harness, Domain: r.Domain, Solver: r.Solver, Props: map[string]bool{id: true}, Params: params, Known: myKnown, Unwind: r.Unwind, TimeoutMs: r.TimeoutMs}
+		cfg := &sym.RunConfig{Harness: r.Harness, Domain: r.Domain, Solver: r.Solver, Props: map[string]bool{id: true}, Params: params, Known: myKnown, Unwind: r.Unwind, TimeoutMs: r.TimeoutMs, CutOnUnwind: r.CutOnUnwind}
 		if tier == "thorough" && cfg.TimeoutMs == 0 {
 			cfg.TimeoutMs = 300000
 		}
